@@ -123,6 +123,8 @@ struct Pm {
   xi_i: f64,
   d_pm: f64,
   sigma: f64,
+  /// further key=value tokens of the detail (how the setup was assembled when not by the configuration alone)
+  extra: String,
 }
 
 impl Pm {
@@ -137,8 +139,9 @@ impl Pm {
   fn tokens(&self) -> String {
     let xm = self.xi_p.max(self.xi_s).max(self.xi_i);
     format!(
-      "{} thr={} zs_um={:.3} zi_um={:.3} zoff_s={:.3} zoff_i={:.3} zr={:.4} xi_p={:.4} xi_s={:.4} xi_i={:.4} xi_max={:.4} xi_si={:.4} d_pm={:e} sigma={:e} cfg={}",
+      "{}{} thr={} zs_um={:.3} zi_um={:.3} zoff_s={:.3} zoff_i={:.3} zr={:.4} xi_p={:.4} xi_s={:.4} xi_i={:.4} xi_max={:.4} xi_si={:.4} d_pm={:e} sigma={:e} cfg={}",
       self.meta.tokens(),
+      self.extra,
       self.s.pump_spectrum_threshold,
       self.s.signal_waist_position.value_unsafe * 1e6,
       self.s.idler_waist_position.value_unsafe * 1e6,
@@ -167,6 +170,11 @@ fn make_pm(ctx: &mut Ctx, cfg: serde_json::Value, meta: Meta) -> Option<Pm> {
       return None;
     }
   };
+  pm_of(ctx, s, meta, cfg_str(&cfg), String::new())
+}
+
+/// the phase-matching test and the derived quantities for a setup that already exists
+fn pm_of(ctx: &mut Ctx, s: SPDC, meta: Meta, cfg: String, extra: String) -> Option<Pm> {
   let (w0s, w0i) = (s.signal.frequency(), s.idler.frequency());
   let centre = guard(|| dkz(&s, w0s, w0i) * 0.5 * s.crystal_setup.length.value_unsafe);
   match centre {
@@ -185,7 +193,7 @@ fn make_pm(ctx: &mut Ctx, cfg: serde_json::Value, meta: Meta) -> Option<Pm> {
   };
   let sigma = fr(fwhm_to_spectral_width(s.pump.vacuum_wavelength(), s.pump_bandwidth));
   let (xi_p, xi_s, xi_i) = (xi(&s.pump, &s), xi(&s.signal, &s), xi(&s.idler, &s));
-  Some(Pm { cfg: cfg_str(&cfg), s, meta, xi_p, xi_s, xi_i, d_pm, sigma })
+  Some(Pm { cfg, s, meta, xi_p, xi_s, xi_i, d_pm, sigma, extra })
 }
 
 fn gen_pm(ctx: &mut Ctx, opts: &GenOpts) -> Option<Pm> {
@@ -287,6 +295,83 @@ fn gen_cp(ctx: &mut Ctx, opts: &GenOpts) -> Option<Pm> {
   meta.apod = "Off".into();
   ctx.count(if backward { "counter-propagating/signal-backward" } else { "counter-propagating/signal-forward" });
   make_pm(ctx, cfg, meta)
+}
+
+/// Setups whose `counter_propagation` FLAG DISAGREES WITH THE BEAM DIRECTIONS, both ways.  The flag only steers the
+/// crate's "auto" constructors (optimum idler, try_as_optimum, optimum_range); the spectra themselves are functions of
+/// the beams.  A source ASSEMBLED BY HAND through the public constructors (`SPDC::new`, `CrystalSetup { .. }`,
+/// `Beam::new`, `PeriodicPoling::new`) or EDITED IN PLACE (public field) is a setup like any other:
+///   kind 0 / 1: signal and idler leave through opposite faces, flag not set (by hand / flag cleared in place);
+///   kind 2 / 3: both photons forward, flag set (by hand / set in place).
+/// `cp=` in the detail is the GEOMETRY (so that the counter-propagating signatures and region apply to it), `flag=` the field.
+fn gen_flag_mismatch(ctx: &mut Ctx, opts: &GenOpts) -> Option<Pm> {
+  let kind = ctx.rng.below(4);
+  let base = if kind < 2 { gen_cp(ctx, opts)? } else { gen_pm(ctx, opts)? };
+  let flag = kind >= 2;
+  let by_hand = kind % 2 == 0;
+  let s0 = &base.s;
+  let s = if by_hand {
+    let built = guard(|| {
+      let c = &s0.crystal_setup;
+      let cs = spdcalc::CrystalSetup {
+        crystal: c.crystal.clone(),
+        pm_type: c.pm_type,
+        phi: c.phi,
+        theta: c.theta,
+        length: c.length,
+        temperature: c.temperature,
+        counter_propagation: flag,
+      };
+      let mk = |b: &Beam| Beam::new(b.polarization(), b.phi(), b.theta_internal(), b.vacuum_wavelength(), b.waist());
+      let pp = match &s0.pp {
+        PeriodicPoling::Off => PeriodicPoling::Off,
+        PeriodicPoling::On { apodization, .. } => PeriodicPoling::new(s0.pp.signed_period(), apodization.clone()),
+      };
+      SPDC::new(
+        cs,
+        mk(&s0.signal).into(),
+        mk(&s0.idler).into(),
+        mk(&s0.pump).into(),
+        s0.pump_bandwidth,
+        s0.pump_average_power,
+        s0.pump_spectrum_threshold,
+        pp,
+        s0.signal_waist_position,
+        s0.idler_waist_position,
+        s0.deff,
+      )
+    });
+    match built {
+      Some(s) => s,
+      None => {
+        ctx.count("skip/hand-assembly-panic");
+        return None;
+      }
+    }
+  } else {
+    let mut s = s0.clone();
+    s.crystal_setup.counter_propagation = flag;
+    s
+  };
+  let opposite = s.signal.direction().z.signum() != s.idler.direction().z.signum();
+  if opposite == flag {
+    // (a configuration whose beams do not have the geometry its generator intended: not a mismatch)
+    ctx.count("flag-mismatch/skip-geometry-agrees-with-flag");
+    return None;
+  }
+  let mut meta = base.meta.clone();
+  meta.cp = opposite;
+  ctx.count(&format!("flag-mismatch/{}/flag={}", if by_hand { "assembled-by-hand" } else { "edited-in-place" }, flag as u8));
+  let extra = format!(
+    " flag={} geometry={} assembled={} signal_theta_deg={} idler_theta_deg={} signed_period_um={:e}",
+    flag as u8,
+    if opposite { "counter-propagating" } else { "co-propagating" },
+    if by_hand { "SPDC::new(CrystalSetup{..},Beam::new..,PeriodicPoling::new)" } else { "crystal_setup.counter_propagation-assigned-in-place" },
+    s.signal.theta_internal().value_unsafe.to_degrees(),
+    s.idler.theta_internal().value_unsafe.to_degrees(),
+    s.pp.signed_period().value_unsafe * 1e6
+  );
+  pm_of(ctx, s, meta, base.cfg.clone(), extra)
 }
 
 /// sources with a heralding efficiency close to one: short poled crystal, wide pump, small collection waists
@@ -1601,6 +1686,8 @@ pub fn run(ctx: &mut Ctx) {
   let displaced_only = mode == "displaced";
   // (mode "anygrid": only the grids far outside the usual window, on every setup)
   let anygrid_only = mode == "anygrid";
+  // (mode "mismatch": only setups whose counter_propagation flag disagrees with the beam directions)
+  let mismatch_only = mode == "mismatch";
   let opts = GenOpts {
     waist: if focus { (20.0, 110.0) } else { (20.0, 300.0) },
     length: if focus { (2000.0, 20000.0) } else { (500.0, 20000.0) },
@@ -1634,6 +1721,8 @@ pub fn run(ctx: &mut Ctx) {
     let p = if let Some((cfg, meta, he)) = fixed.pop() {
       high_eff = he;
       make_pm(ctx, cfg, meta)
+    } else if mismatch_only || (!focus && !cp_only && !displaced_only && tries % 10 == 1) {
+      gen_flag_mismatch(ctx, &opts)
     } else if !focus && !cp_only && !displaced_only && tries % 5 == 0 {
       high_eff = true;
       gen_high_eff(ctx)
